@@ -371,6 +371,19 @@ func (g *IG) threadReturns() {
 				}
 			} else if rc, ok := r.(*ssa.Const); ok {
 				decided, val = foldConstCmp(op, rc, K.(*ssa.Const))
+			} else if lo, okLo := ivLowerBound(r); okLo && K.(*ssa.Const).Value != nil {
+				// a counter that starts at a constant and only counts up is at least that constant
+				if k, okK := constInt64(K); okK {
+					switch {
+					case op == token.LSS && lo >= k, op == token.LEQ && lo > k, op == token.EQL && lo > k:
+						decided, val = true, false
+					case op == token.GEQ && lo >= k, op == token.GTR && lo > k, op == token.NEQ && lo > k:
+						decided, val = true, true
+					}
+				}
+			} else if kc := K.(*ssa.Const); kc.Value == nil && (op == token.EQL || op == token.NEQ) && g.M.nonNilErrorGlobal(r) {
+				// an error variable that is initialised once and never assigned is not nil
+				decided, val = true, op == token.NEQ
 			}
 			if !decided {
 				for _, f := range g.FactsAt(rn) {
@@ -426,6 +439,47 @@ func (g *IG) threadReturns() {
 			}
 			g.Copies[testIf] = append(g.Copies[testIf], n)
 			g.Succ[tail] = []int{n}
+		}
+		// A result component that is used only where a single return of the
+		// helper can lead (frame, err := helper(); if err != nil { return }; use
+		// frame) *is* that return's operand there.
+		refs := call.Referrers()
+		if refs == nil {
+			continue
+		}
+		for _, u := range append([]ssa.Instruction(nil), *refs...) {
+			ex, ok := u.(*ssa.Extract)
+			if !ok || ex.Referrers() == nil || len(*ex.Referrers()) == 0 {
+				continue
+			}
+			feasible := -1
+			okOne := true
+			for _, rn := range rets {
+				reach := g.Reach(g.Succ[rn], nil, nil)
+				for _, use := range *ex.Referrers() {
+					un, inGraph := g.Idx[use]
+					if !inGraph {
+						okOne = false
+						continue
+					}
+					hit := reach[un]
+					for _, cp := range g.Copies[un] {
+						hit = hit || reach[cp]
+					}
+					if hit {
+						if feasible >= 0 && feasible != rn {
+							okOne = false
+						}
+						feasible = rn
+					}
+				}
+			}
+			if okOne && feasible >= 0 {
+				ret := g.Ins[feasible].(*inlRet).Instruction.(*ssa.Return)
+				if ex.Index < len(ret.Results) {
+					replaceUses(ex, ret.Results[ex.Index])
+				}
+			}
 		}
 	}
 }
@@ -1617,4 +1671,30 @@ func (g *IG) ReachAssuming(e Edge, extra []Fact) []bool {
 		}
 	}
 	return out
+}
+
+
+// ivLowerBound: v is a signed or unsigned counter whose every incoming value is
+// a constant or the counter plus a positive constant; returns the least
+// constant (wrap-around is not considered, as elsewhere in the polynomial forms).
+func ivLowerBound(v ssa.Value) (int64, bool) {
+	phi, ok := stripConv(v).(*ssa.Phi)
+	if !ok || !isIntegral(phi.Type()) {
+		return 0, false
+	}
+	lo, have := int64(0), false
+	for _, e := range phi.Edges {
+		if k, ok := constInt64(e); ok {
+			if !have || k < lo {
+				lo = k
+			}
+			have = true
+			continue
+		}
+		if s, ok := stepOf(e, phi); ok && s > 0 {
+			continue
+		}
+		return 0, false
+	}
+	return lo, have
 }
